@@ -200,9 +200,9 @@ pub fn def() -> PropDef {
         needs_pairing: true,
         subs: vec![
             Box::new(EnumSub { name: "published-value", rule: "e(g1,g2) equals the published value (enumerated: evaluated twice)", run: run_kat, replay: replay_kat, exhaustive: true }),
-            Box::new(Sub { name: "textbook-reference", rule: "crate pairing == textbook ate pairing (model), e^r = 1", quick: 96, thorough: 3000, strategy: || boxed(pair_strategy()), check: check_reference }),
-            Box::new(Sub { name: "call-histories", rule: "sequences of 2..6 pairing calls on one thread over a tiny point set closed under negation (same x, opposite y) and the beta-twist (same y, other x), each compared with the textbook pairing: the value must not depend on earlier calls", quick: 40, thorough: 1500, strategy: || boxed(hist_strategy()), check: check_history }),
-            Box::new(Sub { name: "bilinearity", rule: "e([a]g1,[b]g2) == published^(ab); non-degeneracy; call direction", quick: 1200, thorough: 40_000, strategy: || boxed(pair_strategy()), check: check_relations }),
+            Box::new(Sub { name: "textbook-reference", rule: "crate pairing == textbook ate pairing (model), e^r = 1", quick: 120, thorough: 3000, strategy: || boxed(pair_strategy()), check: check_reference }),
+            Box::new(Sub { name: "call-histories", rule: "sequences of 2..6 pairing calls on one thread over a tiny point set closed under negation (same x, opposite y) and the beta-twist (same y, other x), each compared with the textbook pairing: the value must not depend on earlier calls", quick: 50, thorough: 1500, strategy: || boxed(hist_strategy()), check: check_history }),
+            Box::new(Sub { name: "bilinearity", rule: "e([a]g1,[b]g2) == published^(ab); non-degeneracy; call direction", quick: 1_500, thorough: 40_000, strategy: || boxed(pair_strategy()), check: check_relations }),
         ],
         assumptions: COMMON_ASSUMPTIONS.to_vec(),
     }
